@@ -69,6 +69,47 @@ func reqsTok(key string) string {
 	return "ok " + strings.Join(parts, ";")
 }
 
+var selOpNamesExact = map[selection.Operator]string{
+	selection.In: "In", selection.NotIn: "NotIn", selection.Exists: "Exists", selection.DoesNotExist: "DoesNotExist",
+	selection.GreaterThan: "Gt", selection.LessThan: "Lt", selection.Equals: "Eq", selection.DoubleEquals: "DEq", selection.NotEquals: "Ne",
+}
+
+func unhx(s string) string {
+	if s == "-" {
+		return ""
+	}
+	b, err := hex.DecodeString(s)
+	if err != nil {
+		panic(err)
+	}
+	return string(b)
+}
+
+// reqsTokExact is labels.Parse with the operators as parsed ('=', '==' and '!=' kept apart), in the order Parse returns.
+func reqsTokExact(s string) string {
+	sel, err := labels.Parse(s)
+	if err != nil {
+		return "fail"
+	}
+	reqs, selectable := sel.Requirements()
+	if !selectable {
+		return "fail"
+	}
+	var parts []string
+	for _, r := range reqs {
+		vals := r.Values().List()
+		hv := make([]string, len(vals))
+		for i, v := range vals {
+			hv[i] = hx(v)
+		}
+		parts = append(parts, fmt.Sprintf("%s:%s:%s", hx(r.Key()), selOpNamesExact[r.Operator()], strings.Join(hv, "+")))
+	}
+	if len(parts) == 0 {
+		return "ok -"
+	}
+	return "ok " + strings.Join(parts, ";")
+}
+
 func runAnnotate(sc *bufio.Scanner, out *bufio.Writer) {
 	labelsSeen := map[string]bool{}
 	sels := map[string]bool{}
